@@ -548,7 +548,7 @@ pub fn run(args: &Args) -> i32 {
     });
     check.note("grid", json!({"kinds": 7, "ids": IDS, "payload_sizes": sizes, "cells": grid.len()}));
     // A: PRNG frames and streams
-    vmon::par_cases(&check, util::budget(args, 3_000, 150_000, 10), args.threads, |_, rng| {
+    vmon::par_cases(&check, util::budget(args, 3_000, 500_000, 10), args.threads, |_, rng| {
         let (kind, role) = *rng.pick(&KINDS);
         let id = rng.below(1 << 60) >> rng.below(60);
         let n = if kind == Kind::Data {
@@ -564,7 +564,7 @@ pub fn run(args: &Args) -> i32 {
         };
         frame_case(&check, rng, kind, role, id, n, thorough);
     });
-    vmon::par_cases(&check, util::budget(args, 4_000, 200_000, 6), args.threads, |_, rng| stream_case(&check, rng));
+    vmon::par_cases(&check, util::budget(args, 4_000, 800_000, 6), args.threads, |_, rng| stream_case(&check, rng));
     // B, C
     oversize_cases(&check, tiny);
     unknown_type_cases(&check);
@@ -585,7 +585,7 @@ pub fn run(args: &Args) -> i32 {
         });
         check.cases(total);
     }
-    vmon::par_cases(&check, util::budget(args, 60_000, 3_000_000, 30), args.threads, |_, rng| {
+    vmon::par_cases(&check, util::budget(args, 60_000, 10_000_000, 30), args.threads, |_, rng| {
         let b = gen_arbitrary(rng);
         arbitrary_case(&check, rng, b);
         check.cases(1);
